@@ -187,6 +187,14 @@ func genUI(r *rand.Rand, n int, emit func(Op)) {
 		other := (home + 1 + r.Intn(simHosts-1)) % simHosts
 		aliceURL, alice := g.actor(home, "alice", home)
 		bobURL, bob := g.actor(other, "bob", other)
+		/* strings the accessors have to sanitise (tabs, CR LF, other controls) on objects that
+		   many posts share as their author */
+		if r.Intn(2) == 0 {
+			alice["summary"] = "first line\r\nsecond\tline \x07"
+			alice["mediaType"] = "text/plain"
+			bob["summary"] = "bio with\ttab"
+			bob["mediaType"] = "text/plain"
+		}
 		notes := []string{}
 		noteFields := []map[string]any{}
 		mkNote := func(h int, name string, author any, extra map[string]any) string {
